@@ -56,7 +56,7 @@ CLAIMED = {
     technique="TLA+ contract spec as oracle; TLC trace validation of recorded shutdown/reopen histories"),
  "C10": dict(
     category="model_checking",
-    text="SqlModel is the oracle. Histories with 1-4 tables of 1-4 columns (all types, skip-list / B-tree / unindexed), DML, clean and crash-style stops with reopen, and CREATE TABLE after restarts; after every restart and every later CREATE each table is read by name (full scan + a predicate query) and TLC compares with the model, so a table that became unreachable, took another table's identifier or storage, or lost rows is reported.",
+    text="SqlModel is the oracle. Histories with 1-4 tables of 1-4 columns (all types, skip-list / B-tree / unindexed; every second table name has capital letters), DML, clean and crash-style stops with reopen, and CREATE TABLE after restarts; after every restart and every later CREATE each table is read by name (full scan + a predicate query) and TLC compares with the model, so a table that became unreachable, took another table's identifier or storage, or lost rows is reported.",
     design_ref="DESIGN.md section 5 C10",
     note="Trusted: TLC, recording driver. Crash-style stop = files closed without flushing, between statements. One open known finding (B-tree re-attach after a crash restart followed by a clean restart).",
     technique="TLA+ contract spec as oracle; TLC trace validation of recorded multi-table restart histories"),
@@ -81,7 +81,7 @@ CLAIMED = {
 
  "C01": dict(
     category="model_checking",
-    text="CrashModel is the oracle (Acceptable = committed table + any subset of the committing transactions). Seeded workloads of multi-statement transactions (small and 300-900-byte rows so that heaps grow, in-place / growing / shrinking / relocating updates, deletes, explicit aborts, conflict aborts between interleaved transactions, forced checkpoints) run on file-backed databases at pools of 16/24/32/128 frames under the recording disk wrapper; for EVERY prefix of the I/O list after the DDL the crash image is materialised, the real NewSamehadaDB restarted on it, the table read back and a new statement tried, plus torn variants of the next log write; TLC validates the annotated trace: restart succeeded, every returned commit is reflected, new statements are accepted. Further workloads: heaps that grow without checkpoints in a large pool, a long eviction-heavy run in 16 frames, and one transaction that marks rows on 40 pages in a 16-frame pool (undo and commit over more pages than the pool holds); torn variants also of file-extending page writes; every leaf observation goes on - the restarted engine commits one more row, crashes and is restarted once more: the tables must be the same and that row must be there.",
+    text="CrashModel is the oracle (Acceptable = committed table + any subset of the committing transactions). Seeded workloads of multi-statement transactions (small and 300-900-byte rows so that heaps grow, in-place / growing / shrinking / relocating updates, deletes, explicit aborts, conflict aborts between interleaved transactions, deletes of rows the transaction inserted itself, forced checkpoints; every twelfth workload is one transaction whose records fill more than one 528 KB log buffer between two flushes) run on file-backed databases at pools of 16/24/32/128 frames under the recording disk wrapper; for EVERY prefix of the I/O list after the DDL the crash image is materialised, the real NewSamehadaDB restarted on it, the table read back and a new statement tried, plus torn variants of the next log write; TLC validates the annotated trace: restart succeeded, every returned commit is reflected, new statements are accepted. Further workloads: heaps that grow without checkpoints in a large pool, a long eviction-heavy run in 16 frames, and one transaction that marks rows on 40 pages in a 16-frame pool (undo and commit over more pages than the pool holds); torn variants also of file-extending page writes; every leaf observation goes on - the restarted engine commits one more row, crashes and is restarted once more: the tables must be the same and that row must be there.",
     design_ref="DESIGN.md section 5 C01", note=COMMON,
     technique="TLA+ mechanism spec (WalRecovery) model-checked; TLA+ contract spec (CrashModel) as oracle for exhaustive crash-point enumeration per recorded workload (restart of the real engine on every I/O prefix), judged by TLC trace validation"),
  "C02": dict(
